@@ -109,7 +109,7 @@ namespace sim {
 void register_c06() {
     Property p;
     p.id = "C06"; p.level = "exploration";
-    p.rule = "one evaluation = one file emitted by the independent peer writer (flat or nested schema up to depth 5, all 8 physical types, 1-3 row groups, seeded page splits, dictionary/plain/fallback, PLAIN_DICTIONARY vs RLE_DICTIONARY, level/index run policies {canonical, bit-packed only, RLE only, random mix}, 5 codecs, CRC on/off, statistics, unknown Thrift fields, long-form headers), self-checked by the peer reader, then read by carquet through fread/mmap/buffer with whole-chunk reads plus seeded read/skip histories under a random CPU cap; one run in seven plants an unimplemented feature (DELTA_BINARY_PACKED, BYTE_STREAM_SPLIT, data page v2, BIT_PACKED levels, LZO/BROTLI tag) that must be rejected; non-trivial = has rows; distinct = hash of (codec, schema leaf types/levels, per-chunk dictionary/policies/page count)";
+    p.rule = "one evaluation = one file emitted by the independent peer writer (flat or nested schema up to depth 5, all 8 physical types, 1-3 row groups, seeded page splits incl. data pages without values, PLAIN page before dictionary pages, dictionary/plain/fallback, PLAIN_DICTIONARY vs RLE_DICTIONARY, level/index run policies {canonical, bit-packed only, RLE only, random mix}, 5 codecs, CRC on/off, statistics, unknown Thrift fields of every wire type incl. boolean containers and containers longer than the first header window, long-form headers, logical-type annotations, a repetition_type on the root, BYTE_ARRAY values around 4/64/128 KiB), self-checked by the peer reader, then read by carquet through fread/mmap/buffer with whole-chunk reads plus seeded read/skip histories under a random CPU cap; one run in seven plants an unimplemented feature (DELTA_BINARY_PACKED, BYTE_STREAM_SPLIT, data page v2, BIT_PACKED levels, LZO/BROTLI tag) that must be rejected; a file with REPEATED columns is also handed to the batch reader, which must refuse it or deliver every entry; non-trivial = has rows; distinct = hash of (codec, schema leaf types/levels, per-chunk dictionary/policies/page count)";
     p.quick_runs = 20000; p.thorough_runs = 1000000;
     p.run = run_c06;
     p.assumptions = {"the peer writer follows parquet.thrift/Encodings.md; every file it emits is first decoded by the (independent) peer reader and compared with the model, a mismatch is a harness bug (exit 2)",
